@@ -1,6 +1,7 @@
 use serde_json::{json, Value};
 use std::fs::OpenOptions;
 use tensor_chain::raft_wal::{RaftRecoveryState, RaftWal, RaftWalEntry};
+use tensor_chain::tx_wal::{TxOutcome, TxWal, TxWalEntry};
 
 fn tmpdir() -> std::path::PathBuf {
     let base = std::env::var("VERIF_BUILD").unwrap_or_else(|_| "/verif/.build".into());
@@ -68,10 +69,53 @@ fn raft_torn(req: &Value) -> Value {
            "recovered_term": rs.as_ref().map(|s| s.current_term), "recovered_vote": rs.and_then(|s| s.voted_for)})
 }
 
+fn tx_rec(i: u64) -> TxWalEntry {
+    TxWalEntry::TxComplete { tx_id: i, outcome: if i % 2 == 0 { TxOutcome::Committed } else { TxOutcome::Aborted } }
+}
+
+fn tx_torn(req: &Value) -> Value {
+    let k = req["k"].as_u64().unwrap_or(1);
+    let off = req["cut_offset"].as_u64().unwrap_or(0);
+    let mframe = req["frame_len"].as_u64().unwrap_or(10);
+    let dir = tmpdir();
+    let path = dir.join("tx.wal");
+    let mut sizes = vec![0u64];
+    {
+        let mut wal = TxWal::open(&path).unwrap();
+        for i in 1..=k {
+            wal.append(&tx_rec(i)).unwrap();
+            sizes.push(std::fs::metadata(&path).unwrap().len());
+        }
+    }
+    let before = sizes[(k - 1) as usize];
+    let real_frame = sizes[k as usize] - before;
+    let cut = before + map_offset(off, mframe, real_frame);
+    OpenOptions::new().write(true).open(&path).unwrap().set_len(cut).unwrap();
+    let full = cut == sizes[k as usize];
+    let expect1: Vec<TxWalEntry> = (1..=(if full { k } else { k - 1 })).map(tx_rec).collect();
+    let (r1_ok, r1_match) = match TxWal::open(&path).and_then(|w| w.replay()) {
+        Ok(es) => (true, es == expect1),
+        Err(_) => (false, false),
+    };
+    let newrec = tx_rec(1000);
+    let app_ok = match TxWal::open(&path) {
+        Ok(mut w) => w.append(&newrec).is_ok(),
+        Err(_) => false,
+    };
+    let (r2_ok, r2_has_new, r2_prefix) = match TxWal::open(&path).and_then(|w| w.replay()) {
+        Ok(es) => (true, es.last() == Some(&newrec), es.len() == expect1.len() + 1 && es[..expect1.len()] == expect1[..]),
+        Err(_) => (false, false, false),
+    };
+    let _ = std::fs::remove_dir_all(&dir);
+    json!({"cut": cut, "sizes": sizes, "replay1_ok": r1_ok, "replay1_matches": r1_match, "append_ok": app_ok,
+           "replay2_ok": r2_ok, "new_record_recovered": r2_has_new, "replay2_prefix_matches": r2_prefix})
+}
+
 pub fn handle(op: &str, req: &Value) -> Option<Value> {
     Some(match op {
         "wal_torn" => match req["wal"].as_str().unwrap_or("") {
             "raft" => raft_torn(req),
+            "tx" => tx_torn(req),
             other => json!({"error": format!("unknown wal {other}")}),
         },
         "raft_from_entries" => {
